@@ -240,8 +240,11 @@ func (f EncodingFunc) Encode(v any) error { return f(v) }
 
 // SetContentType initializes the response Content-Type header given a MIME
 // type. If the Content-Type header is already set and the MIME type is
-// "application/json" or "application/xml" then SetContentType appends a suffix
-// to the header ("+json" or "+xml" respectively).
+// "application/json" or "application/xml" then SetContentType makes sure the
+// media type of the header ends with the corresponding suffix ("+json" or
+// "+xml" respectively): the suffix is appended to the media type (not to its
+// parameters, which are preserved) and replaces the suffix of another
+// encoding if any.
 func SetContentType(w http.ResponseWriter, ct string) {
 	h := w.Header().Get("Content-Type")
 	if h == "" {
@@ -254,14 +257,29 @@ func SetContentType(w http.ResponseWriter, ct string) {
 		w.Header().Set("Content-Type", ct)
 		return
 	}
-	if strings.Contains(h, "+") {
-		return
-	}
 	suffix := "+json"
 	if ct == "application/xml" {
 		suffix = "+xml"
 	}
-	w.Header().Set("Content-Type", h+suffix)
+	mt, params, err := mime.ParseMediaType(h)
+	if err != nil {
+		// Not a media type, cannot be extended with a suffix.
+		w.Header().Set("Content-Type", ct)
+		return
+	}
+	if mt == ct || strings.HasSuffix(mt, suffix) {
+		// The header already announces the encoding.
+		return
+	}
+	for _, s := range []string{"+json", "+xml", "+gob", "+html", "+txt"} {
+		// Replace the suffix of another encoding.
+		mt = strings.TrimSuffix(mt, s)
+	}
+	// Append the suffix to the media type proper, not to its parameters.
+	if h = mime.FormatMediaType(mt+suffix, params); h == "" {
+		h = ct
+	}
+	w.Header().Set("Content-Type", h)
 }
 
 func newTextEncoder(w io.Writer, ct string) Encoder {
